@@ -3,7 +3,7 @@
 From Coq Require Import List Bool Arith ZArith String Lia.
 Import ListNotations.
 Require Import Nib.C15.Model.
-Open Scope Z_scope.
+Local Open Scope Z_scope.
 
 (** a snapshot of the quantities the property talks about, for the tracked denoms and accounts *)
 Record snap := {
